@@ -1018,5 +1018,5 @@ func (cx *c23cx) ruleBounds() {
 	}
 	cx.r.Count("bounds_goals", n)
 	cx.r.Count("bounds_functions", nf)
-	cx.r.Require(n >= 40, "floor: only %d bounds goals found in package socks5", n)
+	cx.r.Require(n >= 20, "floor: only %d bounds goals found in package socks5", n)
 }
